@@ -37,6 +37,7 @@ type ArrRules struct {
 	Min, Max *uint64
 	Uniq     *bool
 }
+type MapRules struct{ Min, Max *uint64 }
 type TxtRules struct {
 	Min, Max   *string
 	XMin, XMax *bool
@@ -113,6 +114,7 @@ type Prop struct {
 	Req, Opt bool
 	PK       PKind
 	Arr      *ArrRules
+	MapR     *MapRules
 	Single   *string // array ext single_form
 	T        FTy
 	Desc     string
@@ -260,7 +262,11 @@ func (p Prop) Coq() string {
 		}
 		ty = fmt.Sprintf("(PArray %s %s %s)", r, optS(p.Single), p.T.Coq())
 	case PMap:
-		ty = "(PMap " + p.T.Coq() + ")"
+		r := "None"
+		if p.MapR != nil {
+			r = fmt.Sprintf("(Some (MR %s %s))", optN(p.MapR.Min), optN(p.MapR.Max))
+		}
+		ty = fmt.Sprintf("(PMap %s %s)", r, p.T.Coq())
 	}
 	return fmt.Sprintf("(P %s %s %s %s %s)", vh.BytesTerm(p.Name), vh.BoolTerm(p.Req), vh.BoolTerm(p.Opt), ty, vh.BytesTerm(p.Desc))
 }
@@ -465,7 +471,15 @@ func (p Prop) J5S(enum EnumEnv) string {
 	case PMap:
 		itag, ilines := p.T.j5s(enum, "itemSchema."+itemTypeName[p.T.Kind]+".")
 		tag = "map:" + itag
-		lines = ilines
+		if r := p.MapR; r != nil {
+			if r.Min != nil {
+				lines = append(lines, fmt.Sprintf("rules.minPairs = %d", *r.Min))
+			}
+			if r.Max != nil {
+				lines = append(lines, fmt.Sprintf("rules.maxPairs = %d", *r.Max))
+			}
+		}
+		lines = append(lines, ilines...)
 	}
 	fmt.Fprintf(&sb, "\tfield %s %s {\n", p.Name, tag)
 	if p.Desc != "" {
